@@ -31,7 +31,7 @@ ASSUMPTIONS = [
 
 CONTENT_TYPES = ["application/json", "application/graphql-response+json; charset=utf-8", "text/plain; charset=utf-8", None,
                  "application/json", "text/html", "application/octet-stream"]
-STATUSES = [200, 201, 204, 299, 300, 301, 400, 401, 404, 500, 503]
+STATUSES = [200, 201, 204, 299, 300, 301, 400, 401, 404, 419, 499, 500, 503, 520, 599]  # incl. codes http.HTTPStatus does not know
 DATAS = [{"a": 1}, {}, {"x": None, "y": [1, {"z": "w"}]}, {"n": {"m": {"k": [None, 1.5, "s"]}}}]
 ERR_OBJS = [
     {"message": "boom"},
